@@ -455,9 +455,9 @@ fn add_comments(src: &mut Src, text: &str) -> String {
             out.push_str(&format!("{indent}// note {i}\n"));
         }
         out.push_str(l);
-        // end-of-line comments after code are the recorded known finding
-        // `formatter:trailing-comment-not-idempotent`: excluded here, re-observed by a fixed probe
-        if false && src.chance(1, 25) && !l.trim().is_empty() && !l.contains('"') {
+        // end-of-line comments after code (excluded while the finding
+        // `formatter:trailing-comment-not-idempotent` was open; a fixed probe still watches it)
+        if src.chance(1, 25) && !l.trim().is_empty() && !l.contains('"') {
             out.push_str(" // trailing");
         }
         out.push('\n');
